@@ -605,8 +605,8 @@ def run(ctx):
     # known-finding witnesses first
     for f in ctx.findings:
         w = dict(f['witness'])
-        if w.get('path') == 'dataset' or 'table' in w:
-            continue           # run by c10_tables.run below
+        if w.get('path') == 'dataset' or 'table' in w or str(w.get('path', '')).startswith(('values_', 'pair')):
+            continue           # run by c10_tables.run / c10_values.run below
         mo = ctx.model([wire(w)])[0] if ctx.model_ok else None
         compare(ctx, w, mo)
         ctx.count('known_finding_witness')
@@ -630,8 +630,10 @@ def run(ctx):
     run_cases(ctx, [gen_cache_case(rng) for _ in range(ctx.scale(6000, 80000))], 'cache')
     run_generator(ctx, gen_generator_cases(ctx, ctx.scale(5000, 60000)))
     # the sensor property tables of the formats and real data sets
-    from props import c10_tables
+    from props import c10_tables, c10_values
     c10_tables.run(ctx)
+    # array-valued sensors: values that are not just ids (equality by shape and elements)
+    c10_values.run(ctx)
     if ctx.tier == 'thorough' and not ctx.searching:
         buf, tot = [], 0
         for c in exhaustive_cases():
@@ -666,6 +668,9 @@ def replay(ctx, doc):
     if case.get('path') == 'generator':
         run_generator(ctx, [(case['events'], case['vals'], case['greedy'])])
         return
+    if str(case.get('path', '')).startswith(('values_', 'pair')):
+        from props import c10_values
+        return c10_values.replay(ctx, case)
     if case.get('path') == 'dataset' or 'table' in case:
         from props import c10_tables
         return c10_tables.replay(ctx, case)
